@@ -558,15 +558,13 @@ func c08R3(p *core.Prog, r *core.Report) {
 	}
 }
 
-func c08R4(p *core.Prog, r *core.Report) {
-	const rule = "C08.R4"
-	r.Rule(rule, "mark phase edge kinds: index entries, config and layers are each consulted, marked in the digest set, and every index entry is loaded and recursed into regardless of its media type", 4)
-	// the mark unit: the functions of scheme/ocidir that Close (transitively) calls and that walk the
-	// image graph — one recursive function, or a few that call each other
+// gcMarkWalkers finds the mark phase of the layout GC by role: the functions of scheme/ocidir below
+// Close that lie on a call cycle (the recursive walk over the image graph) and what they call inside
+// the package. first is the recursive function itself (the smallest by name when there are several).
+func gcMarkWalkers(p *core.Prog) (walkers map[*ssa.Function]bool, first *ssa.Function, reaches func(from, to *ssa.Function) bool) {
 	closeFn := p.Method(ocidirRel, "OCIDir", "Close")
 	if closeFn == nil {
-		r.MissingAnchor(rule, ocidirRel+".(*OCIDir).Close")
-		return
+		return nil, nil, nil
 	}
 	unit := map[*ssa.Function]bool{}
 	for f := range unitFuncs(closeFn, 4, nil) {
@@ -592,7 +590,7 @@ func c08R4(p *core.Prog, r *core.Report) {
 		})
 		return out
 	}
-	reaches := func(from, to *ssa.Function) bool {
+	reaches = func(from, to *ssa.Function) bool {
 		seen := map[*ssa.Function]bool{}
 		stack := callees(from)
 		for len(stack) > 0 {
@@ -610,7 +608,7 @@ func c08R4(p *core.Prog, r *core.Report) {
 		return false
 	}
 	// the walkers: functions of the unit on a cycle, and what they call inside the unit
-	walkers := map[*ssa.Function]bool{}
+	walkers = map[*ssa.Function]bool{}
 	for f := range unit {
 		if reaches(f, f) {
 			walkers[f] = true
@@ -626,6 +624,28 @@ func c08R4(p *core.Prog, r *core.Report) {
 				}
 			}
 		}
+	}
+	for _, f := range sortedFuncs(walkers) {
+		if first == nil && reaches(f, f) {
+			first = f
+		}
+	}
+	if first == nil {
+		for _, f := range sortedFuncs(walkers) {
+			first = f
+			break
+		}
+	}
+	return walkers, first, reaches
+}
+
+func c08R4(p *core.Prog, r *core.Report) {
+	const rule = "C08.R4"
+	r.Rule(rule, "mark phase edge kinds: index entries, config and layers are each consulted, marked in the digest set, and every index entry is loaded and recursed into regardless of its media type", 4)
+	walkers, first, reaches := gcMarkWalkers(p)
+	if walkers == nil {
+		r.MissingAnchor(rule, ocidirRel+".(*OCIDir).Close")
+		return
 	}
 	hasGetter := func(name string) bool {
 		for f := range walkers {
@@ -644,18 +664,6 @@ func c08R4(p *core.Prog, r *core.Report) {
 	if len(walkers) == 0 || !hasGetter("GetManifestList") || !hasGetter("GetLayers") {
 		r.MissingAnchor(rule, "mark phase of the layout GC (recursive walk below Close consulting GetManifestList and GetLayers)")
 		return
-	}
-	var first *ssa.Function
-	for _, f := range sortedFuncs(walkers) {
-		if first == nil && reaches(f, f) {
-			first = f
-		}
-	}
-	if first == nil {
-		for _, f := range sortedFuncs(walkers) {
-			first = f
-			break
-		}
 	}
 	fname := p.FuncName(first)
 	for _, getter := range []string{"GetManifestList", "GetConfig", "GetLayers"} {
@@ -701,7 +709,7 @@ func c08R4(p *core.Prog, r *core.Report) {
 		f := f
 		core.Calls(f, func(c ssa.CallInstruction) {
 			g := core.CalleeFn(c)
-			if g != nil && !unit[g] {
+			if g != nil && !walkers[g] {
 				if obj := core.Callee(c); obj != nil {
 					if og := p.SSA.FuncValue(obj.Origin()); og != nil {
 						g = og
